@@ -182,6 +182,8 @@ type World struct {
 	parser       vmcommon.ESDTTransferParser
 	// toConsume: outputs of this event's successful calls, used up by their owner at the end of the event
 	toConsume []*vmcommon.VMOutput
+	// toReuse: executions of this event whose input buffers their owner reuses at the end of the event
+	toReuse []*Exec
 	// options
 	CheckCodec  bool
 	StopAtFirst bool
@@ -298,6 +300,7 @@ func (w *World) Run(m *Msg, fault []int) (*Exec, *spec.Verdict) {
 	}
 	ex := nd.Execute(m, fk, fn)
 	nd.FaultAlt = 0
+	w.toReuse = append(w.toReuse, &Exec{backing: ex.backing, Input: ex.Input}) // (only the buffers are kept until the end of the event)
 	w.Stats.Calls++
 	for i, n := range ex.Deps {
 		w.Stats.DepCalls[i] += n
